@@ -88,7 +88,7 @@ def check(run, replay, prop):
         variants = [("plain", "")]
     else:
         model_check(run, thorough)
-        n = 400 if thorough else 120
+        n = 1500 if thorough else 300
         files = [directed(run, maxc=4, tag="dirctr", regs="{}", vals="{}"),
                  directed(run, maxc=3, tag="dirreg", ctrs="{}", incs="= {}", vals="{0,1}"),
                  generate(run, n, 14, tag="a"), generate(run, n // 2, 10, maxc=5, nodes="{1,2}", incs="<- IncsPN", tag="pn"),
@@ -107,6 +107,8 @@ def check(run, replay, prop):
             stored = f.startswith(STORED) or bool(replay)
             args = ["-beh", f, "-out", out, "-seed", str(run.seed * 1000 + i), "-variant", vname, "-async", "8", "-quiesce", "-sub", "2" if prop == "C03" else "5",
                     "-repeat", str((8 if thorough else 4) if stored else 1)]
+            if os.path.basename(f).startswith("beh-dir"):
+                args += ["-maximal=false"]   # an exhaustive export: every line is a behaviour of its own
             if "pn" in os.path.basename(f):
                 args += ["-nodes", "2"]
             if not thorough and not stored:
@@ -134,7 +136,7 @@ def check(run, replay, prop):
         out = os.path.join(run.tmp, "res-deep.json")
         deep = "200:400,250:300" + (",127:130,300:16500" if thorough else "")
         try:
-            run.run_driver(binary, ["-beh", files[0], "-max", "1", "-out", out, "-seed", str(run.seed), "-nodes", "2", "-deep", deep], timeout=3000)
+            run.run_driver(binary, ["-beh", files[0], "-deeponly", "-out", out, "-seed", str(run.seed), "-nodes", "2", "-deep", deep], timeout=3000)
             r = json.load(open(out))["result"]
             for k in tot:
                 tot[k] += r.get(k, 0) or 0
